@@ -1,5 +1,6 @@
 """Aggregates the per-area kernel tables vlib/ktab/<area>.py.
-Each area module defines KERNELS (list), optionally TWINS and CONSTS. Area `core` is written to
+Each area module defines KERNELS (list), optionally TWINS, CONSTS and FLOWS (whole functions translated by vlib/flow.py
+into coq/gen/F_<a>.v). Area `core` is written to
 coq/gen/Kernels.v + coq/gen/Consts.v; any other area <a> to coq/gen/K_<a>.v + coq/gen/C_<a>.v."""
 import importlib
 import os
@@ -20,6 +21,10 @@ def areas():
 
 def kernel_file(area):
     return "Kernels.v" if area == "core" else f"K_{area}.v"
+
+
+def flow_file(area):
+    return "Flows.v" if area == "core" else f"F_{area}.v"
 
 
 def const_file(area):
